@@ -410,7 +410,7 @@ Proof. destruct r; simpl; [apply frame_route|apply frame_refl]. Qed.
 Lemma frame_is_sensor g sid cid g1 b : is_sensor g sid cid = Ok (g1, b) -> frame g g1.
 Proof.
   unfold is_sensor.
-  destruct (negb _ && cf_ge20 (g_cf g)); [|intro H; inversion H; apply frame_refl].
+  destruct (negb _ && node_id_ok sid && cf_ge20 (g_cf g)); [|intro H; inversion H; apply frame_refl].
   destruct (sassoc (s2p "I_PRESENTATION") (vt_internal_members (tab g))) as [ip|]; [|discriminate].
   pose proof (frame_route g (mkMsg sid system_child_id (vt_internal (tab g)) 0 ip [])) as FR.
   destruct (route g (mkMsg sid system_child_id (vt_internal (tab g)) 0 ip [])) as [g' r]. cbn [fst] in FR.
@@ -430,7 +430,7 @@ Proof.
   - intro H. assert (E : g1 = g) by (inversion H; reflexivity). subst g1. clear H. split; [reflexivity|].
     subst ret. destruct (get_node g sid) as [nd|]; [|discriminate].
     exists nd. split; [reflexivity|]. intros c ->. exact R.
-  - destruct (cf_ge20 (g_cf g)); [|intro H; inversion H].
+  - destruct (node_id_ok sid && cf_ge20 (g_cf g)); [|intro H; inversion H].
     destruct (sassoc (s2p "I_PRESENTATION") (vt_internal_members (tab g))); [|discriminate].
     destruct (route g _) as [g' r]. intro H; inversion H.
 Qed.
@@ -823,11 +823,12 @@ Section Dispatch.
 
   (* stream message from a node the gateway does not know: nothing but the >= 2.0
      presentation request; state otherwise untouched *)
-  Lemma handle_stream_unknown g m : tabfacts (tab g) (cf_ge20 (g_cf g)) -> known g (m_node m) = false ->
+  Lemma handle_stream_unknown g m : tabfacts (tab g) (cf_ge20 (g_cf g)) -> node_id_ok (m_node m) = true ->
+    known g (m_node m) = false ->
     handle_stream orc clock g m =
       Ok (if cf_ge20 (g_cf g) then add_job_send g (encode (mkMsg (m_node m) 255 3 0 19 [])) else g, None).
   Proof.
-    intros TF K. apply known_false in K. unfold handle_stream, is_sensor. rewrite K. cbn [negb andb].
+    intros TF NK K. apply known_false in K. unfold handle_stream, is_sensor. rewrite K, NK. cbn [negb andb].
     destruct (cf_ge20 (g_cf g)) eqn:GE; [|reflexivity].
     rewrite (tf_ipres _ _ TF eq_refl). unfold route.
     cbn [m_type m_node]. rewrite (tf_internal _ _ TF), (tf_presentation _ _ TF), K. reflexivity.
@@ -960,7 +961,7 @@ Section Logic.
     intros C D V T K. pose proof (tabfacts_of_cfg g C) as TF.
     destruct (logic_dispatch g l m C D V) as (h & HC & EL).
     assert (h = HStream) by (destruct HC as [[A B]|[[A B]|[[A B]|[[A B]|[A B]]]]]; congruence). subst h.
-    rewrite EL. unfold run_handler, post_route. rewrite (handle_stream_unknown orc clock g m TF K).
+    rewrite EL. unfold run_handler, post_route. rewrite (handle_stream_unknown orc clock g m TF (gvalidate_node_id_ok orc g m V) K).
     reflexivity.
   Qed.
 
